@@ -180,7 +180,7 @@ def run(rep):
     rep.coverage["evaluations"] = rep.coverage.get("impl_cycles", 0) + rep.coverage.get("replay_cycles", 0)
     rep.coverage["distinct_nontrivial"] = rep.coverage.get("edges_total", 0) + len(seen)
     for k in ("read_write_same_cycle", "clear_with_write", "write_refused_at_full", "read_refused_at_empty", "wraps"):
-        if cnt[k] == 0:
+        if cnt[k] == 0 and not rep.violations:
             rep.machinery(f"C14: corner '{k}' never occurred in the recorded traces (vacuous)")
     rep.assumptions += ["Amaranth Python simulator is faithful to the elaborated netlist",
                         "written elements are never the all-zero word, so an empty-slot read is distinguishable",
